@@ -499,5 +499,6 @@ pub fn run(seed: u64, tier: &str, w: &mut dyn Write) -> usize {
     let mut o = Out { w, n: 0 };
     family::<PoseidonHash>(&mut o, &mut r.fork(), &b, 0, tier);
     family::<ToyHash>(&mut o, &mut r.fork(), &b, 1, tier);
-    o.n
+    let nk = crate::c12k::run(&mut r.fork(), tier, o.w);
+    o.n + nk
 }
